@@ -228,9 +228,22 @@ func init() {
 		ast.Inspect(def, func(n ast.Node) bool {
 			switch x := n.(type) {
 			case *ast.CallExpr:
-				if id, ok := x.Fun.(*ast.Ident); !ok || id.Name != "len" {
-					pure = false
+				if id, ok := x.Fun.(*ast.Ident); ok && id.Name == "len" {
+					break
 				}
+				// side-effect free comparisons of the standard library (bytes.Equal, errors.Is, ...)
+				if fn := curProg.CalleeFunc(info, x); fn != nil && fn.Pkg() != nil {
+					switch fn.Pkg().Path() {
+					case "bytes", "strings", "errors", "cmp":
+						for _, a := range x.Args {
+							if _, isLit := ast.Unparen(a).(*ast.FuncLit); isLit {
+								pure = false
+							}
+						}
+						return pure
+					}
+				}
+				pure = false
 			case *ast.TypeAssertExpr, *ast.IndexExpr:
 				pure = false
 			}
@@ -239,12 +252,11 @@ func init() {
 		if !pure {
 			return nil
 		}
-		if _, isBin := ast.Unparen(def).(*ast.BinaryExpr); !isBin {
-			if _, isUn := ast.Unparen(def).(*ast.UnaryExpr); !isUn {
-				return nil
-			}
+		switch ast.Unparen(def).(type) {
+		case *ast.BinaryExpr, *ast.UnaryExpr, *ast.CallExpr: // (a call: only the pure comparisons admitted above)
+			return def
 		}
-		return def
+		return nil
 	}
 	pathsim.DefaultInline = func(p *prog.Prog, fi *prog.FuncInfo) bool { return isNewHelper(p, fi) }
 }
@@ -710,4 +722,35 @@ func isZeroValueExpr(info *types.Info, e ast.Expr) bool {
 		return true
 	}
 	return false
+}
+
+// soleReturnExpr: call is a static call of an extracted helper that has exactly one return
+// statement (after any number of other statements) with one result; that result is returned.
+func soleReturnExpr(info *types.Info, call *ast.CallExpr) ast.Expr {
+	p := curProg
+	if p == nil {
+		return nil
+	}
+	hf := p.FuncInfoOf(p.CalleeFunc(info, call))
+	if !isNewHelper(p, hf) {
+		return nil
+	}
+	var only ast.Expr
+	n := 0
+	ast.Inspect(hf.Decl.Body, func(nd ast.Node) bool {
+		if _, ok := nd.(*ast.FuncLit); ok {
+			return false
+		}
+		if ret, ok := nd.(*ast.ReturnStmt); ok {
+			n++
+			if len(ret.Results) == 1 {
+				only = ret.Results[0]
+			}
+		}
+		return true
+	})
+	if n != 1 {
+		return nil
+	}
+	return only
 }
